@@ -143,7 +143,12 @@ fn slice_sweep(t: &mut Tctx, gb: &mut GuardBuf, algos: &[CrcAlgo], shape: &Shape
                         return;
                     }
                     t.st.count("slice_success");
-                    let out = unsafe { std::slice::from_raw_parts(base as *const u8, c) };
+                    let out: Vec<u8> = match placement {
+                        0 => gb.peek(true, c).to_vec(),
+                        1 => gb.peek(false, c).to_vec(),
+                        // canary window: the Canary object is still alive; read through its own buffer
+                        _ => unsafe { std::slice::from_raw_parts(base as *const u8, c) }.to_vec(),
+                    };
                     if ptr != base || len != l || out[..l] != want[..] {
                         t.st.violation(
                             "C05:wrong-bytes-or-position",
